@@ -63,7 +63,7 @@ Section Run.
 
   Hypothesis Hcanon_U : Forall (fun x => In x U) canon.
   Hypothesis Hcanon_l : exists x, lnk x canon.
-  Hypothesis Hcanon_start : exists b, In b canon /\ bnum b = start.
+  Hypothesis Hcanon_start : exists b, In b canon /\ bnum b <= start.
 
   Let first := j_first c.
   Let kept := j_kept c.
@@ -149,10 +149,11 @@ Section Run.
       exists V2. split; [exact H2|]. split; [rewrite vfold_app, Hv1; exact Hv2 | apply Forall_app; split; assumption].
   Qed.
 
-  (* the live phase from a queue the joined consumer has yet to receive: J1 = its stack once it has *)
-  Lemma live_run fuel w V queue count ps J0 out Jout J1 :
+  (* the live phase from a queue the joined consumer has yet to receive: J1 = its stack once it has; the
+     reference stack may be continued downwards by E (blocks the hub retains under its discovered LIB) *)
+  Lemma live_run_below fuel w V E queue count ps J0 out Jout J1 :
     LOK w V -> eventual_tip c w canon ->
-    sfold J0 out = Some Jout -> sfold Jout queue = Some J1 -> Rel U start V J1 ->
+    sfold J0 out = Some Jout -> sfold Jout queue = Some J1 -> Rel U start (V ++ E) J1 ->
     let res := live_phase fuel c w queue count ps out in
     exists st, sfold J0 (fst res) = Some st /\
                (snd res = JNil -> from_num start (rev st) = from_num start canon).
@@ -160,22 +161,35 @@ Section Run.
     intros HL Htip Hout Hq HR res.
     destruct (live_fifo fuel c w queue count ps out) as (k & Hk). fold res in Hk.
     destruct (lok_push_n k w V HL) as (Vk & HLk & Hvk & Hnk).
-    destruct (rel_fold U U_id U_uniq U_up start (pushed c k w) V J1 Vk HR Hvk Hnk) as (Jk & HJk & HRk).
+    pose proof (vfold_below E _ _ _ Hvk) as Hvk'.
+    destruct (rel_fold U U_id U_uniq U_up start (pushed c k w) (V ++ E) J1 (Vk ++ E) HR Hvk' Hnk) as (Jk & HJk & HRk).
     assert (Hall : sfold Jout (queue ++ pushed c k w) = Some Jk) by (rewrite sfold_app, Hq; exact HJk).
     unfold live_ok in Hk. destruct (snd res) eqn:Er.
     - destruct Hk as (Ha & _ & Ho). exists Jk. split.
       + rewrite Ho, sfold_app, Hout, delivered_nu, sfold_filter. exact Hall.
       + intros _. destruct HLk as (_ & HVk & _).
         destruct (vstate_facts U first kept U_id U_uniq U_up (h_f (w_hub (world_after c k w))) Vk HVk)
-          as (_ & _ & _ & hd & Hls & Hhd).
+          as (HVkne & _ & _ & hd & Hls & Hhd).
         destruct (Htip k hd Ha Hls) as [pre Hcan].
-        exact (rel_final U U_id U_uniq U_up start Vk Jk canon pre hd HRk Hhd Hcan Hcanon_U Hcanon_l Hcanon_start).
+        assert (Hhd' : hd_error (Vk ++ E) = Some hd) by (destruct Vk; [contradiction | exact Hhd]).
+        exact (rel_final U U_id U_uniq U_up start (Vk ++ E) Jk canon pre hd HRk Hhd' Hcan Hcanon_U Hcanon_l Hcanon_start).
     - destruct Hk as (Hst & _). rewrite no_stops in Hst. discriminate.
     - contradiction.
     - contradiction.
     - destruct Hk as (S1 & S2 & HS & _ & Ho). rewrite HS in Hall.
       destruct (sfold_prefix S1 S2 Jout Jk Hall) as [st1 Hst1]. exists st1. split; [|discriminate].
       rewrite Ho, sfold_app, Hout, delivered_nu, sfold_filter. exact Hst1.
+  Qed.
+
+  Lemma live_run fuel w V queue count ps J0 out Jout J1 :
+    LOK w V -> eventual_tip c w canon ->
+    sfold J0 out = Some Jout -> sfold Jout queue = Some J1 -> Rel U start V J1 ->
+    let res := live_phase fuel c w queue count ps out in
+    exists st, sfold J0 (fst res) = Some st /\
+               (snd res = JNil -> from_num start (rev st) = from_num start canon).
+  Proof.
+    intros HL Htip Hout Hq HR. apply (live_run_below fuel w V [] queue count ps J0 out Jout J1 HL Htip Hout Hq).
+    rewrite app_nil_r. exact HR.
   Qed.
 
   (* ---------------------------------------------------------------- the burst for a block number *)
